@@ -29,6 +29,8 @@ def check(repo, col, tier):
     col.rule("R-C18-share", "no shared mutable state between instances", 6)
     col.rule("R-C18-protocol", "a custom copy/pickle protocol method copies the whole state and shares nothing", 2)
     _protocol(repo, col)
+    col.rule("R-C18-plain", "objects that live on a module hold plain data and are instances of importable classes", 20)
+    _plain(repo, col)
     _closures(repo, col)
     _getattr(repo, col)
     _share(repo, col)
@@ -240,6 +242,68 @@ def _protocol(repo, col):
                 col.unk(R, ci.file, title, why, func=f"{cname}.{m.name}", node=m)
     if n < 20:
         raise AnalysisError(f"only {n} classes scanned for copy-protocol methods")
+
+
+HIER = ("Module", "Channel", "Synapse", "Transform")
+
+
+def _plain(repo, col):
+    """pickle stores instances by the importable NAME of their class and their attributes by value.  (a) An attribute that
+    holds a jax function object (jnp.tanh, jax.nn.softplus, a jitted function: not picklable by reference) makes every
+    module that contains the object unpicklable; a numpy ufunc or a module-level function of the package is fine.  (b) A
+    class whose name is rebound by a decorator that returns a function (the package's `deprecated`) can no longer be looked
+    up by name: instances are not picklable although everything else works."""
+    R = "R-C18-plain"
+    n = 0
+    for cname, ci in sorted(repo.classes.items()):
+        if not any(b_.name in HIER for b_ in repo.mro(cname)):
+            continue
+        # (b) decorators of the class
+        for d in ci.node.decorator_list:
+            n += 1
+            dn = d.func if isinstance(d, ast.Call) else d
+            name = dn.id if isinstance(dn, ast.Name) else (dn.attr if isinstance(dn, ast.Attribute) else None)
+            target = repo.resolve_name(repo.mods[ci.file], name) if name else None
+            verdict, why = "UNDECIDED", f"decorator `{unparse(d)[:50]}` is not analysable"
+            fn = None
+            if target is not None and hasattr(target, "methods") and "__call__" in target.methods:
+                fn = target.methods["__call__"].node
+            elif target is not None and hasattr(target, "node") and isinstance(target.node, ast.FunctionDef):
+                fn = target.node
+            if fn is not None:
+                rets = [r for r in ast.walk(fn) if isinstance(r, ast.Return) and r.value is not None]
+                inner = {f.name for f in ast.walk(fn) if isinstance(f, ast.FunctionDef) and f is not fn}
+                params = [a.arg for a in fn.args.args if a.arg != "self"]
+                returns_wrapper = any(isinstance(r.value, ast.Name) and r.value.id in inner for r in rets) or \
+                    any(isinstance(r.value, ast.Lambda) for r in rets)
+                returns_same = bool(rets) and all(isinstance(r.value, ast.Name) and r.value.id in params for r in rets)
+                if returns_wrapper:
+                    verdict, why = "VIOLATED", (f"`@{unparse(d)[:40]}` returns a wrapper FUNCTION: the module-level name `{cname}` then "
+                                                f"refers to that function, pickle cannot find the class of the instances by name "
+                                                f"(PicklingError: not the same object)")
+                elif returns_same:
+                    verdict, why = "DISCHARGED", "decorator returns the class itself"
+            col.add(R, ci.file, f"class {cname} stays importable under its own name (decorator {unparse(d)[:40]})", verdict, why,
+                    func=cname, node=d)
+        # (a) attributes assigned on self
+        for m in ci.methods.values():
+            ex = idx.expander(repo, m)
+            for s_ in ex.stores:
+                if s_.kind == "attr" and s_.base.op == "param" and s_.base.name == "self":
+                    v = s_.value
+                    root = v
+                    while root.op == "attr":
+                        root = root.args[0]
+                    is_lib_fn = v.op == "attr" and root.op == "free" and root.name in ("jnp", "jax", "lax")
+                    is_jit = v.op in ("call", "mcall", "callv") and (v.name in ("jit", "vmap", "grad", "checkpoint", "pmap") or
+                                                                    (v.op == "callv" and v.args and v.args[0].pretty() in ("jax.jit", "jit", "vmap", "jax.vmap")))
+                    n += 1
+                    col.check(not (is_lib_fn or is_jit), R, m, f"{cname}.{m.name}: `self.{s_.key.name}` holds plain data",
+                              "not a jax function object",
+                              f"`{unparse(s_.node)[:70]}` stores a jax function object on the instance: jax functions are not picklable by "
+                              f"reference, so pickle.dumps of every module containing a {cname} raises (deepcopy still works)", node=s_.node)
+    if n < 20:
+        raise AnalysisError(f"only {n} attribute stores / decorators examined")
 
 
 def _getattr(repo, col):
